@@ -18,20 +18,33 @@ def showResult : Except Err (Str × Option Str) → String
 def wrap (hs ps sig : List Str) : List Str :=
   beginMsg :: (hs ++ [] :: (ps ++ beginSig :: (sig ++ [endSig])))
 
+/-- line `i` (0-based) ends in CRLF under the rule `eol` ("lf" / "crlf" / "alt": odd lines) -/
+def isCrlf (eol : String) (i : Nat) : Bool := eol == "crlf" || (eol == "alt" && i % 2 == 1)
+
+/-- the text of the lines, each with the line end the rule gives it (same text as
+    `Props.C19Crlf.renderMixed` of the lines paired with `isCrlf eol i`) -/
+def renderEol (eol : String) : Nat → List Str → Str
+  | _, [] => []
+  | i, l :: r => l ++ (if isCrlf eol i then '\r' :: '\n' :: renderEol eol (i + 1) r else '\n' :: renderEol eol (i + 1) r)
+
+def wrapOp (hs ps sg k extra eol : String) : Option String := do
+  let hs ← decList hs
+  let ps ← decList ps
+  let sg ← decList sg
+  let extra ← decList extra
+  let all := wrap hs ps sg
+  let kept := match k.toNat? with | some n => all.take n | none => all
+  let text := renderEol eol 0 (kept ++ extra)
+  pure (s!"{encStr text} {showResult (strip text)}")
+
 def handle (op : String) (args : List String) : Option String :=
   match op, args with
   | "pgp.strip", [t] => do
     let s ← decStr t
     pure (showResult (strip s))
-  | "pgp.wrap", [hs, ps, sg, k, extra] => do
-    let hs ← decList hs
-    let ps ← decList ps
-    let sg ← decList sg
-    let extra ← decList extra
-    let all := wrap hs ps sg
-    let kept := match k.toNat? with | some n => all.take n | none => all
-    let text := unlinesNL (kept ++ extra)
-    pure (s!"{encStr text} {showResult (strip text)}")
+  | "pgp.wrap", [hs, ps, sg, k, extra] => wrapOp hs ps sg k extra "lf"
+  | "pgp.wrap", [hs, ps, sg, k, extra, eol] =>
+    if eol == "lf" || eol == "crlf" || eol == "alt" then wrapOp hs ps sg k extra eol else none
   | _, _ => none
 
 end Deb822Verif.Driver.Pgp
